@@ -17,7 +17,7 @@ META = {
     'explanation': 'C02: inverse(forward(x)) is run on a tensor of input atoms; (i) every sample on the original extent minus the '
                    'PyWavelets waverec(wavedec(.)) basis-response row must stay within tau (never worse than PyWavelets); (ii) where '
                    "PyWavelets' own reconstruction is the identity to 1e-9 (this defines the PR class), the sample minus x_k must stay within 1e-7*gain.",
-    'bounds': C01.META['bounds'],
+    'bounds': dict(C01.META['bounds'], added_families=C01.META['bounds'].get('added_families', []) + ['odd-length PR banks odd:db2:{0,1}, odd:bior2.2:{0,1} (round trip against the input only; modes zero/symmetric/reflect/periodic; N in {12,13,24,25,38}; 12x13, 16x14)']),
     'outside': C01.META['outside'],
     'assumptions': C01.META['assumptions'] + ['the PR class of a (wavelet, mode) pair is read off PyWavelets itself: ||waverec o wavedec - I|| <= 1e-9'],
 }
